@@ -892,12 +892,12 @@ impl Check for C02 {
     }
     fn strategy(&self, tier: Tier) -> BoxedStrategy<Case> {
         let mut lim = tier.pick(Limits::quick(), Limits::thorough());
-        lim.max_input_len = tier.pick(400, 4000);
-        lim.max_work = tier.pick(40_000, 400_000);
+        lim.max_input_len = tier.pick(400, 2000);
+        lim.max_work = tier.pick(40_000, 200_000);
         case_strategy(lim)
     }
     fn num_cases(&self, tier: Tier) -> u64 {
-        tier.pick(30_000, 600_000)
+        tier.pick(30_000, 300_000)
     }
     fn enumerate(&self, tier: Tier, shard: usize, nshards: usize, f: &mut dyn FnMut(Case) -> bool) {
         // every element position of the leader input share and of every verifier share, for a
